@@ -93,6 +93,10 @@ pub enum MapSel {
     Collect { prog: TimerProg, rounds: u8 },
     /// F(., t) through timer_stats(true): variable loop counts derived from the readings r1, r2
     FoldVar { t: u64, r1: u64, r2: u64 },
+    /// the pool before -> after a whole `test_timer()` run over a scripted timer (it folds 400
+    /// probe deltas into the pool, whether the verdict is Ok or Err); `zero_start`: the timer's
+    /// first reading is 0, the quickest rejection
+    TimerTest { prog: TimerProg, zero_start: bool },
 }
 
 impl MapSel {
@@ -103,6 +107,7 @@ impl MapSel {
             MapSel::Stir => "stir",
             MapSel::Collect { .. } => "collection",
             MapSel::FoldVar { .. } => "fold-in-pool-var-rounds",
+            MapSel::TimerTest { .. } => "test_timer-run",
         }
     }
     /// the time value this map folds first (for maps of the pool)
@@ -125,6 +130,21 @@ impl MapSel {
             MapSel::Stir => stir(x),
             MapSel::Collect { prog, rounds } => collect(x, &prog.script(), *rounds),
             MapSel::FoldVar { t, r1, r2 } => fold_var(x, *t, *r1, *r2),
+            MapSel::TimerTest { prog, zero_start } => {
+                let mut sc = prog.script();
+                if *zero_start {
+                    let mut r = sc.readings.as_ref().clone();
+                    r[0] = 0;
+                    sc = Script::new(r, sc.tail_salt);
+                }
+                let mut g = adapter::jitter_gen(sc, None, 100_000);
+                let j = g.jitter().unwrap();
+                if !j.set_pool(x) {
+                    return Err(no_hook());
+                }
+                let _ = j.test_timer();
+                j.pool().ok_or_else(no_hook)
+            }
         }
     }
 }
@@ -377,8 +397,9 @@ fn word() -> BoxedStrategy<u64> {
 fn map_sel(with_collect: bool) -> BoxedStrategy<MapSel> {
     let coll = (gens::timer_prog(false, 6), 1u8..=4).prop_map(|(prog, rounds)| MapSel::Collect { prog, rounds });
     let var = (word(), word(), word()).prop_map(|(t, r1, r2)| MapSel::FoldVar { t, r1, r2 });
+    let tt = (gens::timer_prog(false, 4), proptest::bool::weighted(0.2)).prop_map(|(prog, zero_start)| MapSel::TimerTest { prog, zero_start });
     if with_collect {
-        prop_oneof![3 => word().prop_map(|t| MapSel::FoldPool { t }), 3 => word().prop_map(|d| MapSel::FoldTime { d }), 3 => Just(MapSel::Stir), 2 => coll, 2 => var].boxed()
+        prop_oneof![6 => word().prop_map(|t| MapSel::FoldPool { t }), 6 => word().prop_map(|d| MapSel::FoldTime { d }), 6 => Just(MapSel::Stir), 4 => coll, 4 => var, 1 => tt].boxed()
     } else {
         prop_oneof![3 => word().prop_map(|t| MapSel::FoldPool { t }), 3 => word().prop_map(|d| MapSel::FoldTime { d }), 3 => Just(MapSel::Stir), 2 => var].boxed()
     }
@@ -437,7 +458,7 @@ pub fn def(ctx: &Ctx) -> PropDef {
     subs.push(PSub::boxed("birthday", t.pick(8, 24), move || (map_sel(false), any::<u64>()).prop_map(move |(map, start)| BirthdayCase { map, start, log2_samples: lg }).boxed(), check_birthday));
     PropDef {
         id: "C15",
-        rule: "three maps of the 64-bit pool are observed on the real code through the cfg(rngs_verif) hooks: the LFSR fold F(d,t) (in d for generated fixed t, in t for generated fixed d), the stir S(d), whole collections C_s(d) over generated timer scripts (fold + rotate-by-7 + stir composed), and the fold with variable loop counts (timer_stats(true), loop-count readings generated). Generated inputs (uniform, sparse 1-3 bits, dense, half-word, zero): (1) affinity triples M(a)^M(b)^M(c) = M(a^b^c) with a pairwise collision test, and joint affinity of F in (d,t); (2) if affine: the 64x64 linear part extracted from the basis must have rank 64 (a defect gives a kernel vector and an executed colliding pair), and the real map must follow the affine rule also at its algebraically special inputs (fixed point, result = complement of input, result = 0 / all ones), solved for from the extracted map; (3) model-free collision search: single-bit, double-bit, byte and random differentials, a birthday search over 2^16 (thorough 2^21) outputs per map, and orbit-related inputs: chains x, g(x), g(g(x)), ... of 4-16 pool contents related by a building block g of the step itself (the documented or the real single LFSR fold with the time value the map folds first, another fold, a rotation, the documented stir, an addition) must be mapped to pairwise different results (a step that applies a building block a pool-dependent number of times merges exactly such inputs). Only an executed collision is a violation; a non-affine map gets no algebraic verdict. Non-trivial = triple of three distinct non-zero values / pair with a non-zero difference; distinct by hash of the case.".into(),
+        rule: "three maps of the 64-bit pool are observed on the real code through the cfg(rngs_verif) hooks: the LFSR fold F(d,t) (in d for generated fixed t, in t for generated fixed d), the stir S(d), whole collections C_s(d) over generated timer scripts (fold + rotate-by-7 + stir composed), the fold with variable loop counts (timer_stats(true), loop-count readings generated), and whole test_timer() runs over scripted timers (accepted and rejected ones). Generated inputs (uniform, sparse 1-3 bits, dense, half-word, zero): (1) affinity triples M(a)^M(b)^M(c) = M(a^b^c) with a pairwise collision test, and joint affinity of F in (d,t); (2) if affine: the 64x64 linear part extracted from the basis must have rank 64 (a defect gives a kernel vector and an executed colliding pair), and the real map must follow the affine rule also at its algebraically special inputs (fixed point, result = complement of input, result = 0 / all ones), solved for from the extracted map; (3) model-free collision search: single-bit, double-bit, byte and random differentials, a birthday search over 2^16 (thorough 2^21) outputs per map, and orbit-related inputs: chains x, g(x), g(g(x)), ... of 4-16 pool contents related by a building block g of the step itself (the documented or the real single LFSR fold with the time value the map folds first, another fold, a rotation, the documented stir, an addition) must be mapped to pairwise different results (a step that applies a building block a pool-dependent number of times merges exactly such inputs). Only an executed collision is a violation; a non-affine map gets no algebraic verdict. Non-trivial = triple of three distinct non-zero values / pair with a non-zero difference; distinct by hash of the case.".into(),
         explanation: Some("2^64 x 2^64 inputs cannot be enumerated. The pool updates are XOR/shift/rotate networks, i.e. affine maps over GF(2); generated triples establish affinity (BLR test), the linear part is then read off the real code on the 64 basis inputs and its rank decides bijectivity exactly. The rotation by 7 cannot be isolated through the hooks, but a composition of maps on a finite set is bijective only if every factor is, so the rank of whole collections covers it. The LFSR taps themselves are C12's subject: a different but bijective fold does not alarm here.".into()),
         assumptions: vec!["affinity outside the sampled triples".into(), "hooks verif_pool / verif_set_pool / verif_stir_once observe and set JitterRng's pool without other effects".into()],
         subs,
